@@ -398,7 +398,7 @@ func c11Pairing(c *Check) {
 			for _, call := range callsAt(pt.Node()) {
 				if methodName(call) == "TakeContext" || methodName(call) == "Take" {
 					if fv := fieldOf(info, callRecv(call)); fv != nil {
-						stages = append(stages, stage{fv.Name(), pt, call})
+						stages = append(stages, stage{objName(fv), pt, call})
 					}
 				}
 			}
@@ -411,7 +411,7 @@ func c11Pairing(c *Check) {
 				return func(pt Pt) bool {
 					for _, call := range callsAt(pt.Node()) {
 						if methodName(call) == "Release" {
-							if fv := fieldOf(info, callRecv(call)); fv != nil && fv.Name() == field {
+							if fv := fieldOf(info, callRecv(call)); fv != nil && objName(fv) == field {
 								return true
 							}
 						}
@@ -420,7 +420,7 @@ func c11Pairing(c *Check) {
 							if d := c.P.DeclOf(fn); d != nil && d.Decl.Body != nil {
 								for _, c2 := range callsIn(d.Decl.Body) {
 									if methodName(c2) == "Release" {
-										if fv := fieldOf(d.Info(), callRecv(c2)); fv != nil && fv.Name() == field {
+										if fv := fieldOf(d.Info(), callRecv(c2)); fv != nil && objName(fv) == field {
 											return true
 										}
 									}
@@ -478,7 +478,7 @@ func c11Pairing(c *Check) {
 func multiLimitRollback(r *RuleCtx) (bool, string) {
 	info := r.Info
 	isWrapped := func(inf *types.Info) func(ast.Expr) bool {
-		return func(e ast.Expr) bool { fv := fieldOf(inf, e); return fv != nil && fv.Name() == "Wrapped" }
+		return func(e ast.Expr) bool { fv := fieldOf(inf, e); return fv != nil && objName(fv) == "Wrapped" }
 	}
 	var acq *ElemLoop
 	for _, l := range elemLoops(info, r.FI.Decl.Body, isWrapped(info)) {
@@ -759,7 +759,7 @@ func c11NoCrash(c *Check) {
 			})
 			for _, up := range usePts {
 				path, f := r.F.Reach(Query{From: r.Entry(), Inclusive: true, Target: isPt([]Pt{up}), AvoidEdge: avoid})
-				c.Hold("R4b", fi.Name()+":"+fv.Name(), r.Pos(up), !f, "field "+fv.Name()+" is nil when its scope is not configured (it is nil-tested elsewhere) but is used here without the test (nil dereference): "+r.F.Describe(path))
+				c.Hold("R4b", fi.Name()+":"+objName(fv), r.Pos(up), !f, "field "+objName(fv)+" is nil when its scope is not configured (it is nil-tested elsewhere) but is used here without the test (nil dereference): "+r.F.Describe(path))
 			}
 		}
 	})
